@@ -111,10 +111,23 @@ def handleRound (input x impl : Json) : R Reply := do
     let len ← natF impl "len"
     -- the length formula on the measured per-item lengths
     let wantLen := 22 + arrLen rlens + 21 + arrLen (plens.map arrLen) + 1
+    -- evaluations repeated on the same instance and inputs (absent in old corpus lines)
+    let againJ ← listOf (fun j => pure j) (fieldD impl "again" .null)
+    let mut again : List Bool := []
+    let mut againFail := ""
+    for aj in againJ do
+      let same ← boolF aj "same"
+      again := again ++ [same]
+      if !same && againFail.isEmpty then
+        let e := (fieldD aj "err" (.str "")).getStr?.toOption.getD ""
+        againFail := s!"node {← natF aj "node"} evaluated {← strF aj "call"} again on the same inputs and " ++
+          (if e.isEmpty then "returned different bytes" else s!"got: {e}")
+    let committed := match fieldD impl "committed" .null with | .bool b => b | _ => true
     let rf : RoundFacts :=
       { outcome := got, outcomeLen := len, nextDecodes := ← boolF impl "nextDecodes", identical := ← boolF impl "identical",
-        reports := ← natF impl "reports", quorum := ← listOf asBool (fieldD impl "quorum" .null) }
-    let rfm : RoundFacts := { rf with outcome := want }
+        reports := ← natF impl "reports", quorum := ← listOf asBool (fieldD impl "quorum" .null), again := again }
+    -- (the model evaluated again gives the same outcome: `outcome_reevaluated`)
+    let rfm : RoundFacts := { rf with outcome := want, again := rf.again.map (fun _ => true) }
     let ok := roundOk rd.ctx limits adv rd.ctx.F rf && advertisedIsGen adv && decide (rf.quorum.length = rd.n + 1)
     -- the model of `Reports` (C04) on the implementation's agreed performables must produce as many reports
     let wantReports := (C04.reports cfg got.agreed).length
@@ -129,7 +142,12 @@ def handleRound (input x impl : Json) : R Reply := do
       (if !decide ((got.agreed.map (·.upkeepID)).Nodup) then ["several-results-of-one-upkeep-agreed"] else []) ++
       (if decide ((tally rd.ctx (validObs rd.ctx limits rd.obs)).filter (fun s => decide (s.count ≥ rd.ctx.F + 1)) |>.map (·.result.workID) |>.Nodup) then [] else ["split-vote:two-quorum-variants-of-one-work"]) ++
       (if rd.obs.any (fun o => match o with | some o => decide (o.performable.length = limits.obsPerformables) | none => false) then ["obs-100-performables"] else []) ++
-      (if decide (rd.obs.length = 2 * rd.ctx.F + 1) then ["exactly-2f+1-observations"] else [])
+      (if decide (rd.obs.length = 2 * rd.ctx.F + 1) then ["exactly-2f+1-observations"] else []) ++
+      (if !committed then ["round-lost:next-runs-on-same-previous-outcome"] else []) ++
+      (if !again.isEmpty then ["evaluated-again-on-same-instance"] else []) ++
+      (if rd.prev.surfaced.any (fun round => round.any (fun p => (got.agreed.map (·.workID)).contains p.workID)) then ["agreed-result-removes-history-proposal"] else []) ++
+      (if rd.prev.surfaced.any (fun round => round.dropLast.any (fun p => (got.agreed.map (·.workID)).contains p.workID)) then ["agreed-result-removes-history-proposal:not-last-of-its-round"] else []) ++
+      (if decide (10 * (obsLens.foldl max 0) ≥ 9 * adv.maxObservationLength) then ["obs>=90%-limit"] else [])
     pure { agree := agree, specModel := roundOk rd.ctx limits adv rd.ctx.F rfm, specImpl := ok && obsOk,
            diff := if agree then "" else
              (if !obsAgree then obsDiff
@@ -143,6 +161,10 @@ def handleRound (input x impl : Json) : R Reply := do
               else if !advertisedIsGen adv then
                 s!"advertised limits differ from the constants in observation.go/outcome.go: MaxReportCount {adv.maxReportCount} (constant {Gen.maxReportCount}), MaxObservationLength {adv.maxObservationLength}, MaxOutcomeLength {adv.maxOutcomeLength}"
               else if !decide (rf.quorum.length = rd.n + 1) then "quorum table incomplete"
+              else if !rf.nextDecodes && validOutcome rd.ctx limits rf.outcome && decide (rf.outcomeLen ≤ adv.maxOutcomeLength) then
+                "the next round cannot decode the outcome: " ++ (fieldD impl "nextErr" (.str "")).getStr?.toOption.getD ""
+              else if !rf.again.all id && validOutcome rd.ctx limits rf.outcome && decide (rf.outcomeLen ≤ adv.maxOutcomeLength)
+                      && rf.identical && decide (rf.reports ≤ adv.maxReportCount) && quorumTableOk rd.ctx.F rf.quorum then againFail
               else explainRound rd.ctx limits adv rd.ctx.F rf),
            nontrivial := decide ((validObs rd.ctx limits rd.obs).flatMap (·.performable) ≠ []) || rd.hasPrev,
            tags := tags }
@@ -167,6 +189,7 @@ def handle (input impl : Json) : R Reply := do
   let x ← field input "x"
   match ← strF input "kind" with
   | "obs" => handleObs x impl
+  | "obs-script" => handleObs x impl
   | "round" => handleRound input x impl
   | "quorum" => handleQuorum x impl
   | k => throw s!"C03: unknown case kind {k}"
